@@ -308,6 +308,7 @@ class DefaultWorker(Worker):
 
             with res_lock:
                 self._result_queue.put(res)
+                res_done.set()
         # ----------------------------------------------------------------------
 
 
@@ -319,13 +320,16 @@ class DefaultWorker(Worker):
           #                 task['uid'], task['pid'], tout)
 
             res_lock = mp.Lock()
+            res_done = mp.Event()
             worker_proc = mp.Process(target=_worker_proc, args=(res_lock,))
             worker_proc.daemon = True
             worker_proc.start()
             worker_proc.join(timeout=tout)
 
             with res_lock:
-                if worker_proc.is_alive():
+                # a process which already reported its result is not timed
+                # out, even if it did not exit, yet: one result per request
+                if worker_proc.is_alive() and not res_done.is_set():
                     worker_proc.terminate()
                     worker_proc.join()
                     out = None
@@ -337,6 +341,9 @@ class DefaultWorker(Worker):
                     self._log.debug('put 2 result: task %s', task['uid'])
                     self._result_queue.put(res)
                     self._log.debug('worker_proc killed: %s', task['uid'])
+
+            # let a process which reported its result flush it to the queue
+            worker_proc.join()
 
         except Exception as e:
 
